@@ -54,7 +54,7 @@ def _q6(ea, eb, ec, ms, ma, mb, mc, ja, jb, f0, f1, f2, now0, pert, tp):
         return q.SKIP
     if not sh.get("earlier", True) and (ja != 0 or jb != 0):
         return q.SKIP
-    if sh.get("fresh", False) and (ea or eb or ec or ma != 0 or mb != 0 or mc != 0):
+    if sh.get("fresh", False) and not sh.get("edited") and (ea or eb or ec or ma != 0 or mb != 0 or mc != 0):
         return q.SKIP        # fresh project: no output exists yet (their mtimes are then irrelevant)
     if not (ms >= 0 and ms <= now0 and ma <= now0 and mb <= now0 and mc <= now0 and ma >= 0 and mb >= 0 and mc >= 0):
         return q.SKIP
@@ -76,6 +76,9 @@ def _q6(ea, eb, ec, ms, ma, mb, mc, ja, jb, f0, f1, f2, now0, pert, tp):
         if EARLIER[j] != "none" and nm in pr.names:
             pr.add_tracked(nm, jid, EARLIER[j])
     pr.write_tracked()
+    if hashing and sh.get("edited"):
+        # every spec was edited since it was last recorded
+        pr.write_hashes({nm: "0" * 40 for nm in pr.names})
     w = pr.w
     w.vfs.clock = now0
     w.install()
@@ -149,6 +152,7 @@ def q6(ea: bool, eb: bool, ec: bool, ms: int, ma: int, mb: int, mc: int, ja: int
 QUERIES = [
     {"name": "Q6", "fn": q6,
      "shards": {"quick": [{"shape": "chain2", "be": "slurm", "ja": a, "jb": b} for a, b in ((0, 0), (1, 3), (3, 1), (2, 2))]
+                         + [{"shape": "chain2", "be": "slurm", "ja": a, "jb": b, "hashing": True, "edited": True, "fresh": True} for a, b in ((1, 2), (3, 0))]
                          + [{"shape": "fork3", "be": "slurm", "earlier": False, "fresh": True, "pert": p} for p in range(5)]
                          + [{"shape": "join3", "be": "slurm", "earlier": False, "fresh": True, "pert": p} for p in range(6)]
                          + [{"shape": "chain2", "be": "local", "earlier": False, "fresh": True}, {"shape": "chain2+sink", "be": "slurm", "earlier": False, "fresh": True},
